@@ -151,6 +151,29 @@ def declare_record(rng, tier):
     return {"kind": "declare", "probes": probes}
 
 
+def declare_seq_record(rng, tier):
+    """Sequences of declarations in one bank of the user's own: fresh, overlapping an accepted one, overlapping again,
+    adjacent, ..."""
+    from dali.memory.location import MemoryBank, MemoryLocation, MemoryType, NumericValue
+    probes = []
+    for _ in range(150 if tier == "quick" else 3000):
+        bank = MemoryBank(rng.randrange(2, 200), 0xFE, has_lock=True, has_latch=False)
+        seq = []
+        base = rng.randrange(3, 0x60)
+        for j in range(rng.randrange(2, 7)):
+            start = base + rng.randrange(0, 12)
+            width = rng.randrange(1, 5)
+            try:
+                type("Seq%d" % j, (NumericValue,), {"bank": bank, "locations": tuple(
+                    MemoryLocation(address=start + i, type_=MemoryType.NVM_RW) for i in range(width))})
+                res = "ok"
+            except Exception as e:   # noqa: recorded
+                res = type(e).__name__
+            seq.append([start, width, res])
+        probes.append(seq)
+    return {"kind": "declare-seq", "probes": probes}
+
+
 def wide_raws(rng, n, tier):
     top = (1 << (8 * n)) - 1
     vals = {0, 1, top, top - 1, top - 2, top - 3, top >> 1, (top >> 1) + 1, 1 << (8 * (n - 1)), (1 << (8 * (n - 1))) - 1}
@@ -206,7 +229,8 @@ def run(tier, seed, replay=None):
             r = core.spec_check("MemMapModel", "MemMapModel.cfg", sc, workers=8)
             out.add_spec_run(r, "MemMapModel")
         cells = core.Interner()
-        recs = [layout_record(), declare_record(random.Random(seed * 31 + 7), tier)]
+        recs = [layout_record(), declare_record(random.Random(seed * 31 + 7), tier),
+                declare_seq_record(random.Random(seed * 37 + 11), tier)]
         jobs = []
         for (label, name), v in sorted(VALUES.items()):
             n = len(v.locations)
